@@ -22,6 +22,7 @@ type SVal struct {
 	Fn      *types.Func
 	Recv    *SVal
 	IsType  bool
+	NoCall  bool // callarg/callres of a call that did not happen on this path: every comparison is false
 }
 
 type SpecEnv struct {
@@ -79,6 +80,9 @@ func (env *SpecEnv) fail(f string, a ...any) {
 
 func (fv *FuncVer) evalBool(env *SpecEnv, e *SExpr) *Term {
 	v := env.eval(e)
+	if v.NoCall {
+		return False
+	}
 	if v.T == nil || v.T.Sort != SBool {
 		env.fail("expected boolean expression, got %v", e)
 	}
@@ -243,6 +247,9 @@ func (env *SpecEnv) ident(name string) SVal {
 		if obj := env.pkg.Scope().Lookup(name); obj != nil {
 			return env.object(obj)
 		}
+		if ip := fv.eng.importedAs(env.pkg, name); ip != nil {
+			return SVal{Pkg: ip}
+		}
 		for _, imp := range env.pkg.Imports() {
 			if imp.Name() == name {
 				return SVal{Pkg: imp}
@@ -394,6 +401,9 @@ func allAllocs(fn *ssa.Function) []*ssa.Alloc {
 func (env *SpecEnv) sel(e *SExpr) SVal {
 	fv := env.fv
 	x := env.eval(e.Args[0])
+	if x.NoCall {
+		return x
+	}
 	if x.Pkg != nil {
 		obj := x.Pkg.Scope().Lookup(e.Name)
 		if obj == nil {
@@ -448,6 +458,9 @@ func (env *SpecEnv) index(e *SExpr) SVal {
 	fv := env.fv
 	c := fv.ctx
 	x := env.eval(e.Args[0])
+	if x.NoCall {
+		return x
+	}
 	i := env.eval(e.Args[1])
 	if x.Math {
 		k := env.coerce(i, mathKey(x.Typ))
@@ -558,7 +571,11 @@ func (env *SpecEnv) binary(e *SExpr) SVal {
 	case "||":
 		return SVal{T: Or(fv.evalBool(env, e.Args[0]), fv.evalBool(env, e.Args[1])), Typ: tb}
 	}
-	a, b := env.unify(env.eval(e.Args[0]), env.eval(e.Args[1]))
+	ea, eb := env.eval(e.Args[0]), env.eval(e.Args[1])
+	if ea.NoCall || eb.NoCall {
+		return SVal{T: False, Typ: tb}
+	}
+	a, b := env.unify(ea, eb)
 	if a.T == nil || b.T == nil {
 		if a.T == nil && b.T == nil {
 			return SVal{T: BoolLit(e.Name == "=="), Typ: tb}
@@ -660,6 +677,9 @@ func (env *SpecEnv) call(e *SExpr) SVal {
 		switch fe.Name {
 		case "len", "cap":
 			x := env.eval(args[0])
+			if x.NoCall {
+				return x
+			}
 			if x.Math {
 				env.fail("len of ghost map")
 			}
@@ -734,6 +754,30 @@ func (env *SpecEnv) call(e *SExpr) SVal {
 				return SVal{T: fv.bytesToString(env.st, x.T, sl.Elem()), Typ: types.Typ[types.String]}
 			}
 			return x
+		case "callarg", "callres":
+			// the k-th argument (receiver first) / result of the last definite call of that name on this path
+			name := args[0].Val
+			k := 0
+			if len(args) > 1 {
+				kv := env.eval(args[1])
+				k = int(resolve(kv.T).Int.Int64())
+			}
+			for i := len(env.st.events) - 1; i >= 0; i-- {
+				ev := env.st.events[i]
+				if ev.Maybe || !(ev.Name == name || strings.HasSuffix(ev.Name, "."+name) || strings.HasSuffix(ev.Name, ")."+name)) {
+					continue
+				}
+				ts, tys := ev.Args, ev.ArgTypes
+				if fe.Name == "callres" {
+					ts, tys = ev.Results, ev.ResTypes
+				}
+				if k < len(ts) && k < len(tys) && tys[k] != nil {
+					return SVal{T: ts[k], Typ: tys[k]}
+				}
+				env.fail("%s(%q, %d): no such argument/result", fe.Name, name, k)
+			}
+			// no such call on this path: comparisons with this value are false
+			return SVal{NoCall: true}
 		case "mayHaveCalled":
 			// true unless no call of that name can have happened on this path (loops included)
 			name := args[0].Val
@@ -789,6 +833,9 @@ func (env *SpecEnv) call(e *SExpr) SVal {
 		}
 	}
 	f := env.eval(fe)
+	if f.NoCall {
+		return f
+	}
 	if f.IsType && len(args) == 1 {
 		return env.convertTo(env.eval(args[0]), f.Typ)
 	}
